@@ -68,8 +68,16 @@ def check_C16(tier, seed):
                     if r.kind == "rule":
                         r.directives = [("check", d[1][:-1] + [d[1][-1][:-1]]) if isinstance(d, tuple) and d[1][-1].endswith("c") and d[1][-1][:-1] in ("chk0", "chk1", "chk2", "chk3") else d for d in r.directives]
             text = grender.render(g, random.Random("c16l/%s/%d" % (seed, i)) if i % 2 else None)
+            # the same bytes must mean the same to every route: line-ending styles (also *inside* literals), no final
+            # newline, odd characters in comments
+            if i % 6 == 3:
+                text = text.replace("\n", "\r\n") + "CrLfRule = \"begin\r\nend\" 'x\ry' \"a\n\rb\";\r\n# \U0001f680 \r\n"
+            elif i % 6 == 4:
+                text = text.rstrip("\n") + "\nLfRule = 'l1\nl2\tl3';\t \n# last line without newline: \ufeff\n    "
+            elif i % 6 == 1:
+                text = text.rstrip()
             gp = os.path.join(wd, "g%d.ebnf" % i)
-            with open(gp, "w", encoding="utf-8") as f:
+            with open(gp, "w", encoding="utf-8", newline="") as f:
                 f.write(text)
             grammars.append((g, text, gp))
         tuples = 0
